@@ -464,10 +464,13 @@ func (r *RIB) AddEntry(ni string, op *spb.AFTOperation) ([]*OpResult, []*OpResul
 
 	oks, fails := []*OpResult{}, []*OpResult{}
 	checked := map[uint64]bool{}
+	verifTrace("addentry.begin", ni, op)
 	if err := r.addEntryInternal(ni, op, &oks, &fails, checked); err != nil {
+		verifTrace("addentry.err", ni, op, err)
 		return nil, nil, err
 	}
 
+	verifTrace("addentry.end", ni, op, oks, fails)
 	return oks, fails, nil
 }
 
@@ -792,6 +795,7 @@ func (r *RIB) refdRIB(ni *RIBHolder, ref string) (*RIBHolder, error) {
 
 // DeleteEntry removes the entry specified by op from the network instance ni.
 func (r *RIB) DeleteEntry(ni string, op *spb.AFTOperation) ([]*OpResult, []*OpResult, error) {
+	verifTrace("delentry.begin", ni, op)
 	niR, ok := r.NetworkInstanceRIB(ni)
 	if !ok || !niR.IsValid() {
 		return nil, nil, fmt.Errorf("invalid network instance, %s", ni)
@@ -896,6 +900,7 @@ func (r *RIB) DeleteEntry(ni string, op *spb.AFTOperation) ([]*OpResult, []*OpRe
 			return oks, fails, fmt.Errorf("cannot run resolvedEntryHook, %v", err)
 		}
 	}
+	verifTrace("delentry.end", ni, op, oks, fails)
 	return oks, fails, nil
 }
 
